@@ -101,7 +101,17 @@ def run(ctx):
         ctx.ob("R-ORDER", "C09.3", f, "the gated arrays are what is returned (no re-binding after the gate)", bool(rets) and not later, "")
         invc = fa.find_calls("self.inverse_rescale")
         ctx.ob("R-ORDER", "C09.3", f, "the bounds gate is applied to the physical-space points (after inverse_rescale)", len(invc) == 1 and fa.dominates(invc[0][0], gate[0][0]), "")
-    ctx.floor("C09.3", 7)
+    # with every reparameterisation offering a prime prior, populate() skips this gate (backward_pass(rescale=False)) and
+    # relies on x_prime_log_prior alone: its bounds must follow every change of the rescaling bounds
+    rtb_ = prog.cls(tables.RTB) if hasattr(tables, "RTB") else prog.cls("nessai.reparameterisations.rescale:RescaleToBounds")
+    for m_ in ("set_bounds", "update_bounds"):
+        fm_ = rtb_.methods[m_]
+        ctx.analysed_functions.add(fm_.qual)
+        fam_ = FA(fm_)
+        st_ = [n for n, s_ in fam_.assigns_to_attr("bounds")]
+        up_ = fam_.find_calls("self.update_prime_prior_bounds")
+        ctx.ob("R-ORDER", "C09.3", fm_, f"RescaleToBounds.{m_}: the prime-space prior bounds (the only prior gate of the x'-prior path) are recomputed after every write of the rescaling bounds", len(st_) == 1 and len(up_) == 1 and fam_.cfg.must_pass(st_[0], fam_.cfg.exit, [up_[0][0]]), "")
+    ctx.floor("C09.3", 9)
 
     # ---- C09.4 INS mask-before-use ---------------------------------------------------------
     for name in ("draw", "draw_from_flows"):
@@ -307,6 +317,7 @@ _IP = "nessai/proposal/importance.py"
 _RJ = "nessai/proposal/rejection.py"
 _AN = "nessai/proposal/analytic.py"
 MUTANTS = [
+    {"id": "prime-prior-bounds-stale", "file": "nessai/reparameterisations/rescale.py", "old": "            logger.debug(f\"New bounds: {self.bounds}\")\n            self.update_prime_prior_bounds()", "new": "            logger.debug(f\"New bounds: {self.bounds}\")", "expect": "the only prior gate of the x'-prior path"},
     {"id": "analytic-no-prior", "file": _AN, "old": '        self.samples["logP"] = self.model.batch_evaluate_log_prior(\n            self.samples\n        )\n', "new": "", "expect": "pool log-priors come from"},
     {"id": "rejection-likelihood-on-all", "file": _RJ, "old": '        self.samples["logL"] = self.model.batch_evaluate_log_likelihood(\n            self.samples\n        )', "new": '        x["logL"] = self.model.batch_evaluate_log_likelihood(x)\n        self.samples = x[indices]', "expect": "C09.1"},
     {"id": "permutation-wrong-size", "file": _FP, "old": "        self.indices = np.random.permutation(self.samples.size).tolist()", "new": "        self.indices = np.random.permutation(N).tolist()", "expect": "fresh permutation of exactly the pool rows"},
